@@ -13,13 +13,28 @@ def A(code, qual, payload=(0, 0, 0, 0)):
     return (code, qual, payload)
 
 
+_CLOCK = [None]
+
+
+def set_clock(rng):
+    """Opt-in for checks whose oracles do not identify events by their timestamp: the time base of a dump is coarse, so
+    consecutive records may share a tick.  With a clock set, materialize() draws per call: strictly increasing (60 %),
+    runs of 2-3 records per tick (20 %), one tick for the whole call (20 %).  File order, never time, is the order."""
+    _CLOCK[0] = rng
+
+
 def materialize(items, t0=1000, step=7):
-    """items: [(tid, abstract event)] -> [Kevent] with strictly increasing timestamps."""
+    """items: [(tid, abstract event)] -> [Kevent] with increasing timestamps (strictly, unless a clock is set)."""
     out = []
     ts = t0
-    for tid, (code, qual, payload) in items:
+    mode = 0
+    if _CLOCK[0] is not None and step:
+        c = _CLOCK[0].random()
+        mode = 0 if c < 0.6 else 1 if c < 0.8 else 2
+    for i, (tid, (code, qual, payload)) in enumerate(items):
         out.append(ev.mk(ts, code, qual, payload, tid))
-        ts += step
+        if mode == 0 or (mode == 1 and i % 3 == 2):
+            ts += step
     return out
 
 
